@@ -375,6 +375,91 @@ class Normaliser:
         return out
 
 
+def sign_facts(N, base, rounds=3, budget=400):
+    """sound sign information for monomial variables, derived by propagation:
+    ex(.) > 0, sqrt(.) >= 0, signs of atoms implied by the (abstracted) assumptions, sign of a
+    product from the signs of its factors (even powers are >= 0), reciprocals keep the sign."""
+    facts = []
+    sign = {}  # atom idx -> '+', '0+', '-', '0-'
+    for key, i in N.akey.items():
+        if key[0] == "uf" and key[1] == "ex":
+            sign[i] = "+"
+            facts.append(N.atoms[i] > 0)
+        elif key[0] == "uf" and key[1] == "sqrt":
+            sign[i] = "0+"
+            facts.append(N.atoms[i] >= 0)
+    queries = 0
+    done_m = {}
+    for rnd in range(rounds):
+        S = z3.Solver()
+        S.set("timeout", 300)
+        S.add(base + facts)
+        progress = False
+        for key, i in list(N.akey.items()):
+            if sign.get(i) in ("+", "-") or queries > budget:
+                continue
+            a = N.atoms[i]
+            if key[0] == "recip":
+                sg = sign.get(key[1])
+                if sg in ("+", "-") and sign.get(i) != sg:
+                    sign[i] = sg
+                    facts.append(a > 0 if sg == "+" else a < 0)
+                    progress = True
+                continue
+            for sg, neg in (("+", a <= 0), ("-", a >= 0), ("0+", a < 0), ("0-", a > 0)):
+                if sign.get(i) == sg:
+                    break
+                if sg in ("0+", "0-") and sign.get(i) in ("0+", "0-"):
+                    continue
+                S.push()
+                S.add(neg)
+                queries += 1
+                try:
+                    r = S.check()
+                except z3.Z3Exception:
+                    r = z3.unknown
+                S.pop()
+                if r == z3.unsat:
+                    sign[i] = sg
+                    progress = True
+                    break
+        for m, v in N.mono.items():
+            cur = done_m.get(m)
+            if cur == "strict":
+                continue
+            strict, known, negs = True, True, 0
+            cnt = {}
+            for a in m:
+                cnt[a] = cnt.get(a, 0) + 1
+            for a, k in cnt.items():
+                sg = sign.get(a)
+                if k % 2 == 0:
+                    if sg not in ("+", "-"):
+                        strict = False
+                    continue
+                if sg is None:
+                    known = False
+                    break
+                if sg in ("0+", "0-"):
+                    strict = False
+                if sg in ("-", "0-"):
+                    negs += 1
+            if not known:
+                continue
+            kind = "strict" if strict else "weak"
+            if cur == kind:
+                continue
+            done_m[m] = kind
+            progress = True
+            if negs % 2 == 0:
+                facts.append(v > 0 if strict else v >= 0)
+            else:
+                facts.append(v < 0 if strict else v <= 0)
+        if not progress:
+            break
+    return facts
+
+
 def abstract_nl(exprs, context=()):
     """list of abstracted (linear) assertions equivalent-or-weaker than context + exprs.
     `context` (path conditions / preconditions) is processed first and used to decide
@@ -385,5 +470,11 @@ def abstract_nl(exprs, context=()):
         b = N.boolean(e)
         res.append(b)
         N.assume(b)
+    ctx_part = list(res)
     res += [N.boolean(e) for e in exprs]
-    return res + N.side + N.congruence() + N.facts()
+    extra = N.side + N.congruence() + N.facts()
+    try:
+        sf = sign_facts(N, ctx_part + extra)
+    except Exception:
+        sf = []
+    return res + extra + sf
